@@ -379,6 +379,105 @@ def listed_open(name):
     return any(f.get("deviation") == name and f["status"] == "open" for f in common.known_findings())
 
 
+def record(events, meta, d, r, only=None):
+    """run request r of description d on freshly built real objects and append the trace events (only: restrict a
+    'place' request to one of k0 / kG0 / kM)"""
+    def emit(ev, body, label):
+        e = dict(ev=ev, id=len(events), d=d)
+        e.update(body)
+        meta[e["id"]] = (d, body.get("req", dict(q=body.get("q"))), label)
+        events.append(e)
+        gc.freeze()      # recorded observations are permanent: keeps the package's gc.collect() calls cheap
+
+    if d["kind"] == "asm":
+        for body in observe_asm(d, r):
+            emit("asm", body, "PanelAssembly")
+    elif r["q"] == "fext":
+        emit("bay", observe_bay_fext(d, r), "StiffPanelBay.calc_fext")
+    elif not d["stiffs"]:
+        emit("bay", observe_skin_bay(d, r), "StiffPanelBay (skin tiles)")
+    elif r["q"] == "size":
+        emit("bay", observe_bay_size(d, r), "StiffPanelBay.get_size")
+    elif r["q"] == "place":
+        for q in ("k0", "kG0", "kM"):
+            if only and q != only:
+                continue
+            body, psd, beams = observe_place(d, q)
+            emit("place", body, "StiffPanelBay.calc_%s vs placed components" % q)
+            for bm in beams:
+                emit("bay", bm, "BladeStiff1D.calc_kM (flange as a beam)")
+            for o in psd:
+                e = dict(ev="psd", id=len(events), sym=o["sym"], lmin=o["lmin"], norm=o["norm"], kind=o["kind"], q=o["q"])
+                meta[e["id"]] = (d, dict(q="place", psd=o["q"], stiffener=o["stiff"], kind=o["kind"]),
+                                 "contribution of stiffener %d (%s) to %s: symmetric, positive semi-definite" % (o["stiff"], o["kind"], o["q"]))
+                events.append(e)
+
+
+def judge(rep, events, meta, tag):
+    """trace validation by TLC; returns the set of other properties' listed findings that were met"""
+    cand = OWN + sorted(INHERITED)
+    tcfg = ("CONSTANTS\nNFun = 8\nADeviations = {}\nTol = %d\nTolNL = %d\nTolPlace = %d\nTolPsd = %d\nOpenKF = {%s}\n"
+            % (TOL, TOL_NL, TOL_PLACE, TOL_PSD, ", ".join('"%s"' % k for k in cand)))
+    verdicts, results, problems = validate_trace(tag, "Trace_Assembly", tcfg, events, timeout=6000)
+    for res in results:
+        rep.add_tlc("Trace_Assembly", res)
+    for p in problems:
+        rep.machinery(p)
+    inherited_seen = set()
+    for e in events:
+        v = verdicts.get(e["id"])
+        if not v or v[0] == "ok":
+            continue
+        d, r, label = meta[e["id"]]
+        desc = "%s: %s" % (label, describe(d, r))
+        if v[0].startswith("kf:"):
+            name = v[0][3:]
+            if name in OWN:
+                how = (" -> " + e["raised"]) if "raised" in e else ""
+                if e["ev"] == "bay" and r.get("q") == "b1dmass":
+                    how = (" equals the exact beam mass with doubled coupling; %s entries differ from the literal one; negative "
+                           "quadratic form along the observed eigenvector certified exactly: %s" % (v[1][0], v[1][1]))
+                rep.known(name, desc + how)          # not listed as open -> VIOLATION by Report.finish
+            elif listed_open(name):
+                inherited_seen.add(name)           # another property's listed finding, reported by its own check
+            else:
+                rep.violation("%s is explained only by deviation %s (owned by %s), which known_findings.json does not list as open: %s"
+                              % (desc, name, INHERITED.get(name), e.get("msg", v[1])),
+                              dict(d=d, req=r, ev=e["ev"], deviation=name))
+        else:
+            rep.violation("%s is not the sum of the placed components / not what the specification gives: %s"
+                          % (desc, str(v[1])[:300]), dict(d=d, req=r, ev=e["ev"], bad=str(v[1]),
+                                                           raised=e.get("raised"), msg=e.get("msg")))
+    return inherited_seen
+
+
+def replay(path, build):
+    """re-execute a stored violation: the description and request are run again on the real code and judged by TLC"""
+    rp = json.load(open(path))["replay"]
+    if "d" not in rp or "req" not in rp:
+        print("replay file has no <<description, request>> pair; re-run the check with the same VERIF_SEED instead")
+        return 2
+    rep = Report("C13", "replay", int(os.environ.get("VERIF_SEED", "20261003")))
+    d, r = rp["d"], rp["req"]
+    events, meta = [], {}
+    try:
+        if rp.get("ev") == "place" or r.get("q") == "place":
+            record(events, meta, d, dict(q="place"), only=r.get("psd", r.get("q")) if r.get("q") != "place" or "psd" in r else None)
+        else:
+            if r.get("q") == "fint_part":
+                r = dict(q="fint", c=r["c"])
+            if r.get("q") == "b1dmass":
+                record(events, meta, d, dict(q="place"), only="kM")
+            else:
+                record(events, meta, d, r)
+    except Exception as ex:
+        rep.violation("%s raised %s: %s" % (describe(d, r), type(ex).__name__, str(ex)[:200]), dict(d=d, req=r))
+        return rep.finish()
+    judge(rep, events, meta, "c13-rp")
+    rep.cov["traces_validated_against_impl"] = len(events)
+    return rep.finish()
+
+
 def run(tier, seed, build):
     rep = Report("C13", tier, seed)
     rng = random.Random(seed)
@@ -407,7 +506,7 @@ def run(tier, seed, build):
         rep.machinery("bounded model is vacuous for " + str(missing))
         return rep.finish()
     # 2. replay into the real code + seeded random definitions
-    nrand = 8 if tier == "quick" else 100
+    nrand = 8 if tier == "quick" else 240
     for _ in range(nrand):
         ad = random_asm(rng)
         for q in (["size", "k0"] + rng.sample(["kG0", "kM", "fext"], 1 if tier == "quick" else 3)):
@@ -421,35 +520,9 @@ def run(tier, seed, build):
     events, meta = [], {}
     gc.collect()
     gc.freeze()          # the package calls gc.collect() in every method: keep the parsed lattice out of its way
-
-    def emit(ev, d, body, label):
-        e = dict(ev=ev, id=len(events), d=d)
-        e.update(body)
-        meta[e["id"]] = (d, body.get("req", dict(q=body.get("q"))), label)
-        events.append(e)
-        gc.freeze()      # recorded observations are permanent: keeps the package's gc.collect() calls cheap
-
     for d, r in pairs:
         try:
-            if d["kind"] == "asm":
-                for body in observe_asm(d, r):
-                    emit("asm", d, body, "PanelAssembly")
-            elif r["q"] == "fext":
-                emit("bay", d, observe_bay_fext(d, r), "StiffPanelBay.calc_fext")
-            elif not d["stiffs"]:
-                emit("bay", d, observe_skin_bay(d, r), "StiffPanelBay (skin tiles)")
-            elif r["q"] == "size":
-                emit("bay", d, observe_bay_size(d, r), "StiffPanelBay.get_size")
-            elif r["q"] == "place":
-                for q in ("k0", "kG0", "kM"):
-                    body, psd, beams = observe_place(d, q)
-                    emit("place", d, body, "StiffPanelBay.calc_%s vs placed components" % q)
-                    for bm in beams:
-                        emit("bay", d, bm, "BladeStiff1D.calc_kM (flange as a beam)")
-                    for o in psd:
-                        e = dict(ev="psd", id=len(events), sym=o["sym"], lmin=o["lmin"], norm=o["norm"], kind=o["kind"], q=o["q"])
-                        meta[e["id"]] = (d, dict(q="psd " + o["q"], stiffener=o["stiff"], kind=o["kind"]), "stiffener contribution")
-                        events.append(e)
+            record(events, meta, d, r)
         except Exception as ex:
             rep.violation("%s raised %s: %s" % (describe(d, r), type(ex).__name__, str(ex)[:200]), dict(d=d, req=r))
             continue
@@ -458,40 +531,13 @@ def run(tier, seed, build):
     if os.environ.get("C13_DUMP"):
         with open(os.environ["C13_DUMP"], "w") as f:
             json.dump(events, f)
-    cand = OWN + sorted(INHERITED)
-    tcfg = ("CONSTANTS\nNFun = 8\nADeviations = {}\nTol = %d\nTolNL = %d\nTolPlace = %d\nTolPsd = %d\nOpenKF = {%s}\n"
-            % (TOL, TOL_NL, TOL_PLACE, TOL_PSD, ", ".join('"%s"' % k for k in cand)))
-    verdicts, results, problems = validate_trace("c13-tr", "Trace_Assembly", tcfg, events, timeout=6000)
-    for res in results:
-        rep.add_tlc("Trace_Assembly", res)
-    for p in problems:
-        rep.machinery(p)
-    inherited_seen = set()
-    for e in events:
-        v = verdicts.get(e["id"])
-        if not v or v[0] == "ok":
-            continue
-        d, r, label = meta[e["id"]]
-        desc = "%s: %s" % (label, describe(d, r))
-        if v[0].startswith("kf:"):
-            name = v[0][3:]
-            if name in OWN:
-                rep.known(name, desc + (" -> " + e["raised"] if "raised" in e else ""))     # unlisted -> VIOLATION by Report
-            elif listed_open(name):
-                inherited_seen.add(name)           # another property's listed finding, reported by its own check
-            else:
-                rep.violation("%s is explained only by deviation %s (owned by %s), which known_findings.json does not list as open: %s"
-                              % (desc, name, INHERITED.get(name), e.get("msg", v[1])), dict(d=d, req=r, deviation=name))
-        else:
-            rep.violation("%s is not the sum of the placed components / not what the specification gives: %s"
-                          % (desc, str(v[1])[:300]), dict(d=d, req=r, ev=e["ev"], bad=str(v[1]),
-                                                           raised=e.get("raised"), msg=e.get("msg")))
+    inherited_seen = judge(rep, events, meta, "c13-tr")
     rep.cov["traces_validated_against_impl"] = len(events)
     rep.cov["evaluations"] = len(events)
     rep.cov["inherited_findings_met"] = sorted(inherited_seen)
     rep.sample(dict(d=pairs[0][0], req=pairs[0][1]))
     rep.sample(dict(d=pairs[-1][0], req=pairs[-1][1]))
-    rep.cov["rule"] = ("TLC-enumerated lattice (assemblies of 1..4 unequal panels, both orders, 0..2 connections of kinds SSycte/"
+    rep.cov["rule"] = ("TLC-enumerated lattice (assemblies of 1..4 (thorough: 1..6) unequal panels, both orders, 0..2 connections of kinds SSycte/"
                        "SSxcte/BFycte/SB; bays cut at 0..4 arbitrary positions, flat and curved; bays with 0..2 stiffeners of each "
                        "kind in several insertion orders) replayed on freshly built PanelAssembly / StiffPanelBay objects + %d seeded "
                        "random assemblies, %d random skin bays, %d random stiffened bays; distinct = distinct (description, request)"
